@@ -82,7 +82,7 @@ pub fn check(cx: &Cx, rep: &mut Report) {
         // actor stops accepting is delivered: the number of deliveries is determined by the clock alone
         if t.kind == "interval" && af.incs.len() == 1 && !af.failed() && t.dur > 0 && af.stream_end.is_none() && af.decl.map(|d| !d.entry.stream()).unwrap_or(false) {
             // the instant from which nothing more is accepted: the first accepted stop request / last drop
-            let close_stamp = af.stops.iter().filter(|s| s.accepted).map(|s| s.b).min().into_iter().chain(af.gone_at).min();
+            let close_stamp = af.stops.iter().filter(|s| s.accepted).map(|s| s.b).min().into_iter().chain(af.arc_gone_at).min();
             let terminated = af.t_final().is_some() && af.task_end.is_some();
             if let (Some(cs), true) = (close_stamp, terminated) {
                 let close_vt = ix.ev[cs as usize].vt;
